@@ -237,8 +237,15 @@ func (c *Channel) Invoke(ctx context.Context, method string, req, resp interface
 		cloner = ProtoCloner{}
 	}
 
+	// The request is copied now, not lazily when the handler decodes it: the
+	// server goroutine can outlive this call (if the context is cancelled), and
+	// the caller is free to reuse or mutate req as soon as Invoke has returned.
+	reqCopy, err := cloner.Clone(req)
+	if err != nil {
+		return err
+	}
 	codec := func(out interface{}) error {
-		return cloner.Copy(out, req)
+		return cloner.Copy(out, reqCopy)
 	}
 	ctx, cancel := context.WithCancel(ctx)
 	sts := internal.UnaryServerTransportStream{Name: method}
